@@ -13,10 +13,11 @@ META = {
                    "batch shape over extents {1,2} and ranks 0..2; for every element b of the broadcast batch a NON-batched replica of "
                    "the same class carrying the b-th slice of the same parameter atoms is evaluated on the b-th slice of the data, and "
                    "z3 proves the batched output's element b equal to the replica's output (kernel matrix, mean vector, noise, prior, "
-                   "posterior mean/covariance, marginal log likelihood). IndependentModelList / SumMarginalLogLikelihood: members' outputs / mean.",
+                   "posterior mean/covariance, marginal log likelihood; batched variational models: q(f), KL, ELBO; batch-indexing a kernel "
+                   "or its lazy matrix and re-evaluating the batched kernel afterwards). IndependentModelList / SumMarginalLogLikelihood: members' outputs / mean.",
     "bounds": {"quick": "kernel/mean/noise: all 16 broadcastable (param, data) batch-shape pairs over {(),(1,),(2,),(2,1),(1,2),(2,2)} sampled to 10; exact GP n=2,m=1",
                "thorough": "all pairs; kernels RBF, Scale(RBF), RQ, Linear; exact GP n=2, m=2"},
-    "outside": ["batch rank > 2, extents > 2", "variational batch models beyond C14's batched scenarios", "rounding"],
+    "outside": ["batch rank > 2, extents > 2 (variational models: one batch dimension of extent 2..3)", "rounding"],
     "assumptions": ["reals for floats"],
 }
 TIMEOUT_S = {"quick": 600, "thorough": 3000}
@@ -206,6 +207,58 @@ def exact_gp(S, n, m, shared_x):
             S.prove_eq(mll_b[b], as_sym_arr(SH.get(mll_r)), "marginal log likelihood element %d" % b)
 
 
+def variational(S, dist, B, M, n):
+    """batched ApproximateGP (real whitened strategy, batched variational distribution, batched Gram table, batched mean):
+       q(f), KL and the ELBO of element b = a non-batched replica carrying the b-th slices of the same atoms"""
+    from gpytorch import variational as V
+    from .C14 import VGP, _make_dist
+    N = M + n
+    bs = (B,)
+    Gs, Gc = S.factor("g", N, bs)
+    table = (Gc @ Gc.transpose(-1, -2)).contiguous()
+    S.put(table, Gs @ np.swapaxes(Gs, -1, -2))
+    d, Mq, Cq = _make_dist(S, dist, M, bs)
+    model = VGP(V.VariationalStrategy, d, labels(0, M, bs), table, make_mean("constant", bs))
+    declare_params(S, model.mean_module, "mean_")
+    lik = gpytorch.likelihoods.GaussianLikelihood(batch_shape=torch.Size(bs))
+    declare_params(S, lik, "lik_", scale=0.3)
+    for p in list(model.parameters()) + list(lik.parameters()):
+        p.requires_grad_(False)
+    model.variational_strategy.variational_params_initialized.fill_(1)
+    y = S.randn(B, n); S.sym_tensor(y, "y")
+    X = labels(M, N, bs)
+    with S.mode():
+        model.eval(); lik.eval()
+        out = model(X)
+        qm, qc = out.mean, out.covariance_matrix
+        kl = model.variational_strategy.kl_divergence()
+        model.train(); lik.train()
+        elbo = gpytorch.mlls.VariationalELBO(lik, model, num_data=5)(model(X), y)
+        S.check_concrete(tuple(kl.shape) == bs and tuple(elbo.shape) == bs, "batched KL / ELBO shapes", "%s %s" % (tuple(kl.shape), tuple(elbo.shape)))
+        for b in range(B):
+            rd = type(d)(M)
+            with torch.no_grad():
+                src = dict(d.named_parameters())
+                for nme, p in rd.named_parameters():
+                    p.copy_(src[nme][b])
+            rep = VGP(V.VariationalStrategy, rd, labels(0, M), table[b], make_mean("constant"))
+            rl = gpytorch.likelihoods.GaussianLikelihood()
+            with torch.no_grad():
+                rep.mean_module.raw_constant.copy_(model.mean_module.raw_constant[b])
+                rl.noise_covar.raw_noise.copy_(lik.noise_covar.raw_noise[b])
+            for p in list(rep.parameters()) + list(rl.parameters()):
+                p.requires_grad_(False)
+            rep.variational_strategy.variational_params_initialized.fill_(1)
+            rep.eval(); rl.eval()
+            ro = rep(labels(M, N))
+            S.prove_eq(qm[b], as_sym_arr(SH.get(ro.mean)), "q(f) mean element %d = replica" % b)
+            S.prove_eq(qc[b], as_sym_arr(SH.get(ro.covariance_matrix)), "q(f) covariance element %d = replica" % b)
+            S.prove_eq(kl[b], as_sym_arr(SH.get(rep.variational_strategy.kl_divergence())), "KL element %d = replica" % b)
+            rep.train(); rl.train()
+            re = gpytorch.mlls.VariationalELBO(rl, rep, num_data=5)(rep(labels(M, N)), y[b])
+            S.prove_eq(elbo[b], as_sym_arr(SH.get(re)), "ELBO element %d = replica" % b)
+
+
 def scenarios(tier, seed):
     out = []
     def add(fn, **p):
@@ -223,6 +276,8 @@ def scenarios(tier, seed):
         add("exact_gp", n=2, m=1, shared_x=False)
         for kind in ("rbf+linear", "rbf*linear", "scale(rbf+rq)", "scale_rbf"):
             add("kernel_index", kind=kind, B=2, diag=True)
+        add("variational", dist="cholesky", B=2, M=2, n=1)
+        add("variational", dist="meanfield", B=3, M=1, n=2)
     else:
         for kind in ("rbf", "scale_rbf", "rq", "linear"):
             for (p, d) in pairs:
@@ -239,4 +294,8 @@ def scenarios(tier, seed):
         for shared in (True, False):
             add("exact_gp", n=2, m=1, shared_x=shared)
             add("exact_gp", n=2, m=2, shared_x=shared)
+        for dist in ("cholesky", "meanfield", "natural"):
+            add("variational", dist=dist, B=2, M=2, n=1)
+            add("variational", dist=dist, B=3, M=1, n=2)
+        add("variational", dist="cholesky", B=2, M=2, n=2)
     return out
